@@ -15,4 +15,6 @@ Extras == [n \in Names |-> IF n = "later" THEN { {M("e1", "ix1A"), M("e4", "ixts
                            ELSE {}]
 PairsQ == {"gen1", "second"}
 PairsT == Names
+FieldsQ == Fields \ {"e2", "e3"}
+FieldsT == Fields
 =============================================================================
